@@ -35,7 +35,7 @@ def _tree(d, skip=()):
     return out
 
 
-def k_closure(N=3):
+def k_closure(N=3, outcomes=4):
     bootstrap()
     import jade.cli.resubmit_jobs as rs
     from jade.jobs.cluster import Cluster
@@ -46,7 +46,8 @@ def k_closure(N=3):
         nm = names(N)
         blockers = {i: {j for j in range(N) if j != i and ex.flag("b%d_%d" % (i, j))} for i in range(N)}
         # outcome of each job in the completed submission
-        kind = [ex.choice("outcome%d" % i, 4) for i in range(N)]  # 0 successful 1 failed 2 canceled 3 missing
+        # 0 successful 1 failed 2 canceled 3 missing (outcomes=2: successful / missing only, to afford N=4)
+        kind = [[0, 3, 1, 2][ex.choice("outcome%d" % i, outcomes)] for i in range(N)]
         failed, missing, successful = ex.flag("failed"), ex.flag("missing"), ex.flag("successful")
         out = fresh_dir("kclo")
         config = make_config([dict(name=nm[i], blocked_by={nm[b] for b in blockers[i]}) for i in range(N)], [slurm_group("default")])
